@@ -63,7 +63,7 @@ Print Assumptions C09_literal_typing_repaired.
 From RZ.proofs Require Import ExprCorrect.
 Theorem C09_folding_agrees_with_evaluation_repaired :
   forall (cfg : config) (rw : regwidth) (IM : string -> bool) (E : cenv) (csub : csubs) xi V e st,
-  cfg_fx cfg = all_fixes -> cfg_params cfg = [] -> macs_std (cfg_macros cfg) -> subs_ext (cfg_subs cfg) -> csub_ext csub ->
+  cfg_fx cfg = all_fixes -> cfg_params cfg = [] -> macs_std (cfg_macros cfg) -> subs_ext (cfg_subs cfg) -> csub_ext csub -> xi_ok xi ->
   lst_ok IM V st -> pfrag rw IM V e ->
   exists pv st', lower_expr cfg e st = OK (IPure pv, st') /\ st_ext st st' /\ lst_ok IM V st' /\
     forall R rem, regs_le (st_regs st') R -> norem rem ->
